@@ -137,6 +137,9 @@ def check(run: common.Run, drv: common.Driver, rng: random.Random, tier: str) ->
                 v = rng.choice([1, 2, 3, 8, 16, 100, rng.randint(1, 5000)])
                 imp_env[f"SH_{'ABCD'[j]}"] = v
                 imp_lines.append(f"const SH_{'ABCD'[j]} = {v}")
+            if rng.random() < 0.5:
+                # the imported file has a constant NAMED like one of this file's: each file's constants are its own
+                imp_lines.append(f"const K_A = {rng.randint(6000, 7000)}")
             open(os.path.join(d, "shared.bitproto"), "w").write("\n".join(imp_lines) + "\n")
             as_name = rng.choice([None, "lib"])
             imp_prefix = (as_name or "shared") + "."
@@ -248,9 +251,17 @@ def check_emission(run, drv, sc, d: str, files, consts, outs, k: int) -> None:
         py_ok = False
         run.violation({"kind": "impl-vs-spec", "input": {"files": files}, "observed_impl": f"generated Python constants do not execute: {type(e).__name__}: {e}"})
     # C: compile a probe printing every macro
-    probe = ['#include <stdio.h>', '#include <stdbool.h>', '#include <stdint.h>']
+    # the probe includes the generated header itself (which includes the imported file's header first), the way user code does
+    hd = os.path.join(d, f"hdr{k}")
+    os.makedirs(hd, exist_ok=True)
+    open(os.path.join(hd, "main_bp.h"), "w").write(h)
+    try:
+        open(os.path.join(hd, "shared_bp.h"), "w").write(R.render_strings(R.parse_file(os.path.join(d, "shared.bitproto")), "c")[".h"])
+    except Exception as e:
+        run.violation({"kind": "impl-vs-spec", "input": {"files": files}, "observed_impl": f"render of the imported file: {type(e).__name__}: {e}"})
+        return
+    probe = ['#include <stdio.h>', '#include <stdbool.h>', '#include <stdint.h>', '#include "main_bp.h"']
     cdefs = dict(re.findall(r"^#define (K_[A-J]) (.*)$", h, re.M))
-    probe += [f"#define {n} {v}" for n, v in cdefs.items()]
     probe.append("int main(void) {")
     for (name, t, v, txt) in consts:
         if name not in cdefs:
@@ -267,7 +278,7 @@ def check_emission(run, drv, sc, d: str, files, consts, outs, k: int) -> None:
     probe.append("  return 0; }")
     open(os.path.join(d, "probe.c"), "w").write("\n".join(probe) + "\n")
     cvals: Dict[str, str] = {}
-    p = subprocess.run(["gcc", "-w", "probe.c", "-o", "probe"], cwd=d, capture_output=True, text=True)
+    p = subprocess.run(["gcc", "-w", "-I", os.path.join(common.REPO, "lib", "c"), "-I", hd, "probe.c", "-o", "probe"], cwd=d, capture_output=True, text=True)
     if p.returncode == 0:
         o = subprocess.run([os.path.join(d, "probe")], capture_output=True, text=True).stdout
         for line in o.splitlines():
